@@ -651,6 +651,27 @@ func runProducerScenario(t testing.TB, rec *vRec, sc *prodScenario) {
 			if !vAwait(dn, stepWait(st)) {
 				rec.Ev("noreq", kv{"n": st.N, "ms": st.Ms})
 			}
+		case "must_outcomes_by":
+			// a latency claim of the property ("sent once the trigger fires, without waiting for further input") where the
+			// code under test is NOT expected to go quiet (a retry back-off keeps running): the bound is load-aware -
+			// it expires only when this process itself made progress for that long; a starved machine gives no verdict
+			b := vNewBound(stepWait(st))
+			for {
+				if waitOutcomes(st.N, 25*time.Millisecond) {
+					break
+				}
+				if exp, starved := b.state(); exp {
+					if waitOutcomes(st.N, time.Millisecond) {
+						break
+					}
+					if starved {
+						rec.Ev("unsteered", kv{"what": fmt.Sprintf("must_outcomes_by %d: machine starved, no verdict", st.N)})
+					} else {
+						rec.Ev("noreq", kv{"n": st.N, "ms": st.Ms})
+					}
+					break
+				}
+			}
 		case "must_req":
 			dn := make(chan struct{})
 			go func(n int) { c.WaitReq(n, 100*time.Second); close(dn) }(st.N)
